@@ -165,4 +165,5 @@ func TestVerifC11(t *testing.T) {
 		}
 	}
 	res.sample(map[string]any{"scenario": scs[0]})
+	res.Extra["states_are_outcomes"] = true
 }
